@@ -127,6 +127,36 @@ def c01e(db, res):
             res.check(not used, 'C01.e', key, '%s is not dereferenced after the call' % V,
                       '%s dereferences %s (%s) after %s(), which may have freed it (auto-destroy on completion)' % (name, V, P.K(used[0])[:50] if used else '', c['callee']), (used[0] if used else c)['loc'])
     res.floor('C01.e', 'calls that may free a tx held in a local/parameter', n, 5)
+    # a TRANSACTION_COMPLETE callback may destroy the transaction it is given (a callback behaviour the property quantifies over)
+    nh = 0
+    for name, f in sorted(db.fn.items()):
+        for b, i, c in f.calls('htp_hook_run_all'):
+            hk = P.K(c['args'][0]).split('hook_')[-1] if len(c.get('args', [])) == 2 else ''
+            if hk not in ('transaction_complete', 'response_complete', 'request_complete'):
+                continue
+            HK = hk.upper()
+            a1 = strip(c['args'][1])
+            if a1 is None or a1.get('k') != 'var':
+                continue
+            V = P.K(a1)
+            nh += 1
+            used = []
+
+            def visit(bb, ii, st):
+                if (bb, ii) == (b, i):
+                    return False
+                if Nullness.reassigns(st, V):
+                    return True
+                d = Nullness.derefs(st, V)
+                if d is not None:
+                    used.append(d)
+                    return True
+                return False
+            C.forward(f, (b, i), visit)
+            key = '%s:after:%s-callbacks(%s)' % (name, HK, V)
+            res.check(not used, 'C01.e', key, '%s is not dereferenced after the callbacks ran' % V,
+                      '%s dereferences %s (%s) after the %s callbacks ran; a callback may have destroyed the transaction when both sides are complete by then - htp_tx_destroy() accepts it (heap use-after-free)' % (name, V, P.K(used[0])[:60] if used else '', HK), (used[0] if used else c)['loc'])
+    res.floor('C01.e', 'completion hook runs (TRANSACTION / RESPONSE / REQUEST COMPLETE)', nh, 3)
 
 
 def c01g(db, res):
